@@ -116,6 +116,25 @@ fn do_call(cf: &Cf, call: &Call) -> Res {
             Err(e) => err_res(&e),
         },
         Call::Walk => Res::List(cf.walk().map(|e| seen_of(&e)).collect()),
+        Call::WalkInterleaved => {
+            let mut out = Vec::new();
+            let mut it = cf.walk();
+            while let Some(e) = it.next() {
+                // another read-only call while the iterator is alive
+                let _ = cf.exists(e.path());
+                out.push(seen_of(&e));
+            }
+            Res::List(out)
+        }
+        Call::ReadRootInterleaved => {
+            let mut out = Vec::new();
+            let mut it = cf.read_root_storage();
+            while let Some(e) = it.next() {
+                let _ = cf.is_stream(e.path());
+                out.push(seen_of(&e));
+            }
+            Res::List(out)
+        }
         Call::WalkStorage(p) => match cf.walk_storage(p) {
             Ok(it) => Res::List(it.map(|e| seen_of(&e)).collect()),
             Err(e) => err_res(&e),
@@ -266,6 +285,20 @@ pub fn run_once(sc: &Scenario, image: &[u8], cfg_key: u64, sink: &SharedSink) {
                         Ok(()) => "ok".to_string(),
                         Err(e) => format!("err:{:?}", e.kind()),
                     },
+                    Op::FlushInWalk { h } => {
+                        // stream I/O from inside an iteration loop on the same thread
+                        let mut outcome = "ok".to_string();
+                        let mut first = true;
+                        for _entry in cf.walk() {
+                            if first {
+                                first = false;
+                                if let Err(e) = streams[h].flush() {
+                                    outcome = format!("err:{:?}", e.kind());
+                                }
+                            }
+                        }
+                        outcome
+                    }
                     Op::Write { .. } => unreachable!(),
                 };
                 let st = states(&cf, &streams);
